@@ -35,6 +35,14 @@ def digraph_cases(thorough):
 
 
 DODOS = {
+    'selffile': ("def task_a():\n    return {'actions': ['echo RAN-a'], 'file_dep': ['x'], 'targets': ['x']}\n"),
+    'selfdep': ("def task_a():\n    return {'actions': ['echo RAN-a'], 'task_dep': ['a']}\n"),
+    'selfsetup': ("def task_a():\n    return {'actions': ['echo RAN-a'], 'setup': ['a']}\n"),
+    'calc-selffile': ("def task_c():\n    return {'actions': [lambda: {'file_dep': ['x']}]}\n"
+                      "def task_a():\n    return {'actions': ['echo RAN-a'], 'calc_dep': ['c'], 'targets': ['x']}\n"),
+    'file3': ("def task_a():\n    return {'actions': ['echo RAN-a'], 'file_dep': ['y'], 'targets': ['x']}\n"
+              "def task_b():\n    return {'actions': ['echo RAN-b'], 'task_dep': ['a']}\n"
+              "def task_c():\n    return {'actions': ['echo RAN-c'], 'setup': ['b'], 'targets': ['y']}\n"),
     'direct': ("def task_a():\n    return {'actions': ['echo RAN-a'], 'task_dep': ['b']}\n"
                "def task_b():\n    return {'actions': ['echo RAN-b'], 'task_dep': ['a']}\n"),
     'setup': ("def task_a():\n    return {'actions': ['echo RAN-a'], 'setup': ['b']}\n"
